@@ -47,6 +47,9 @@ Step ==
             IF AlignmentNeutralClaimed(Rec.outer, Rec.ntop)
             THEN Stat("equal-claimed") /\ Clause("aligned-intensity-equals-unaligned", Rec.nan = 0 /\ Rec.reldiff_q <= Tol, <<Rec.alignment, Rec.reldiff_q, Rec.nan>>)
             ELSE Stat("equal-not-claimed")
+       [] Rec.kind = "relabel" ->
+            \* relabel_edge_ids (every id shifted by one) commutes with formulate(): same intensity on the same events
+            Stat("relabel") /\ Clause("relabelled-reaction-has-the-same-intensity", Rec.nan = 0 /\ Rec.reldiff_q <= Tol, <<Rec.reldiff_q, Rec.nan>>)
        [] Rec.kind = "cgexp" ->
             \* C03, second reading: couplings obtained from random canonical LS coefficients by the Clebsch-Gordan
             \* expansion agree (with the model's sign) for all chains that share a coefficient
